@@ -71,8 +71,8 @@ ASSUMPTIONS = [
 REQUIRED_MONITORS = {
     # simple_registration: simple-registration steps whose outcome was compared with the model; _listed: those answered 2.xx (fetched links,
     # base, location, lifetime judged); _failed_fetch: those whose fetch got no usable link-format and that were not answered 2.xx
-    "quick": {"lookup_ep_matches_model": 15000, "lookup_res_matches_model": 15000, "registration_resource_matches_model": 25000, "unchanged_after_4xx": 6000, "location_rules": 3000, "expiry": 4000, "acceptance_pins": 30, "lookup_filter": 1500, "pagination": 500, "simple_registration": 2500, "simple_registration_listed": 1000, "simple_registration_failed_fetch": 1000},
-    "thorough": {"lookup_ep_matches_model": 500000, "lookup_res_matches_model": 500000, "registration_resource_matches_model": 800000, "unchanged_after_4xx": 200000, "location_rules": 100000, "expiry": 120000, "acceptance_pins": 30, "lookup_filter": 50000, "pagination": 15000, "simple_registration": 100000, "simple_registration_listed": 40000, "simple_registration_failed_fetch": 40000},
+    "quick": {"lookup_ep_matches_model": 15000, "lookup_res_matches_model": 15000, "registration_resource_matches_model": 25000, "unchanged_after_4xx": 6000, "location_rules": 3000, "expiry": 4000, "acceptance_pins": 30, "lookup_filter": 1500, "lookup_filter_two_criteria": 300, "pagination": 500, "simple_registration": 2500, "simple_registration_listed": 1000, "simple_registration_failed_fetch": 1000},
+    "thorough": {"lookup_ep_matches_model": 500000, "lookup_res_matches_model": 500000, "registration_resource_matches_model": 800000, "unchanged_after_4xx": 200000, "location_rules": 100000, "expiry": 120000, "acceptance_pins": 30, "lookup_filter": 50000, "lookup_filter_two_criteria": 10000, "pagination": 15000, "simple_registration": 100000, "simple_registration_listed": 40000, "simple_registration_failed_fetch": 40000},
 }
 
 JUDGE_LOCATION_REUSE = False  # see do_reg: count (False) or report (True) the re-use of a freed location for another (ep, d)
@@ -292,6 +292,11 @@ def gen(r):
                 q = ["page", r.choice([1, 2, 3])]
             else:
                 q = ["crit", r.choice(CRITERIA), r.randrange(16)]
+                if r.random() < 0.35:
+                    # a second search criterion on another key: both must hold (RFC 9176 section 6.1)
+                    first_key = q[1].split("-")[0]
+                    others = [c for c in CRITERIA if c.split("-")[0] != first_key and not (first_key in ("rt", "if", "extra", "href") and c.split("-")[0] == first_key)]
+                    q += [r.choice(others), r.randrange(16)]
             steps.append({"op": "lookup", "kind": kind, "q": q, "peer": r.randrange(npeers), "szx": r.choice([None, None, 6, 4, 2])})
     return {"steps": steps, "sweep_szx": r.choice([None, None, None, 6, 4]), "npeers": npeers}
 
@@ -1328,14 +1333,33 @@ class Runner:
                 self.viol("lookup-%s/pagination-mismatch" % st["kind"], "the pages of a paged lookup do not partition the result of the plain lookup into chunks of at most `count`", pages=[p if not isinstance(p, list) else p[:4] for p in pages][:5], want_total=len(full))
             return
         name, pat = self.criterion(st["q"][1], st["q"][2])
-        want = self.model.filtered(name, pat)[0 if st["kind"] == "ep" else 1]
-        code, links, raw = await self.get_links(st["peer"], path, ["%s=%s" % (name, pat)], szx=st["szx"])
+        which = 0 if st["kind"] == "ep" else 1
+        want = self.model.filtered(name, pat)[which]
+        query = ["%s=%s" % (name, pat)]
+        two = len(st["q"]) >= 5
+        if two:
+            name2, pat2 = self.criterion(st["q"][3], st["q"][4])
+            if name2 == name:
+                two = False
+            else:
+                also = self.model.filtered(name2, pat2)[which]
+                want = [e for e in want if e in also]
+                query.append("%s=%s" % (name2, pat2))
+                if self.r_order(st):
+                    query.reverse()
+        code, links, raw = await self.get_links(st["peer"], path, query, szx=st["szx"])
         got = canon(links) if isinstance(links, list) else links
         rep.monitor("lookup_filter")
-        self.sig.append(("lookup-filter", st["kind"], st["q"][1], len(want) > 0, len(want) < len(full)))
-        self.trace.append({"t": round(self.loop.time(), 3), "request": {"GET": "/" + "/".join(path), "query": "%s=%s" % (name, pat)}, "answer": self.rc.code_str(code) if code else "none", "n": len(got) if isinstance(got, list) else got})
+        if two:
+            rep.monitor("lookup_filter_two_criteria")
+        self.sig.append(("lookup-filter", st["kind"], st["q"][1], st["q"][3] if two else None, len(want) > 0, len(want) < len(full)))
+        self.trace.append({"t": round(self.loop.time(), 3), "request": {"GET": "/" + "/".join(path), "query": "&".join(query)}, "answer": self.rc.code_str(code) if code else "none", "n": len(got) if isinstance(got, list) else got})
         if got != want:
-            self.viol("lookup-%s/filter-mismatch/%s" % (st["kind"], st["q"][1]), "a lookup with one search criterion does not list exactly the matching live entries (RFC 9176 6.1)", query="%s=%s" % (name, pat), difference=ref.diff(want, got) if isinstance(got, list) else got, model=self.model_summary())
+            self.viol("lookup-%s/filter-mismatch/%s" % (st["kind"], (st["q"][1] if not two else "two-criteria")), "a lookup with %s does not list exactly the matching live entries (RFC 9176 6.1)" % ("two search criteria" if two else "one search criterion"), query="&".join(query), difference=ref.diff(want, got) if isinstance(got, list) else got, model=self.model_summary())
+
+    def r_order(self, st):
+        # which of the two criteria comes first in the query string (deterministic per step)
+        return (st["q"][2] + st["q"][4]) % 2 == 1
 
     async def run(self):
         await self.setup()
